@@ -595,7 +595,7 @@ class Compiler:
         return Val('int', e=C(g))
     if e.id in ('STOP_ITERATION',):
       return Val('exc', kind=C(K_STOP), val=C(0))
-    if e.id in EXC_NAMES or e.id in ('queue', 'asyncio', 'types', 'logging'):
+    if e.id in EXC_NAMES or e.id in ('queue', 'asyncio', 'types', 'logging') or e.id in self.sources:
       return Val('name', name=e.id)
     self.err(e, f'unknown name {e.id}')
 
